@@ -1,6 +1,6 @@
 use super::Span;
 use crate::error::{LexErrorMessage, SplError};
-use nom::{bytes::complete::take_while, character::is_alphanumeric, error::ErrorKind};
+use nom::{bytes::complete::take_while, error::ErrorKind};
 
 type IResult<'a, O> = nom::IResult<Span<'a>, O>;
 
@@ -11,7 +11,7 @@ pub(super) fn alpha_numeric0(input: Span) -> IResult<Span> {
 
 /// Checks if provided char is alphanumeric or an underscore.
 pub(super) fn is_alpha_numeric(c: char) -> bool {
-    is_alphanumeric(c as u8) || c == '_'
+    c.is_ascii_alphanumeric() || c == '_'
 }
 
 /// Tries to parse the input with the given parser.
